@@ -9,7 +9,7 @@ from ref import codec as C
 PROPERTY = 'C13'
 LEVEL = 'exploration'
 RULE = ('cases = claim histories of one CA (bypassed / immediate range / veto range; arbitrary-address-capable or not) driven by a scripted contender '
-        '(no contender, lower NAME claiming during the veto window, lower NAME claiming after the CA is operational, higher NAME claiming, two successive lower-NAME claims for the preferred and the re-claimed address, a lower-NAME claim against a bypassed CA that was never started and against a CA that was stopped after becoming operational; contender NAMEs whose numeric order is opposite to the order of their low bytes; preferred addresses incl. the range boundaries 0, 127, 128, 247, 248, 253) on either '
+        '(no contender, lower NAME claiming during the veto window, lower NAME claiming after the CA is operational, higher NAME claiming, two successive lower-NAME claims for the preferred and the re-claimed address, a lower-NAME claim against a bypassed CA that was never started, against a bypassed CA that was started, and against a CA that was stopped after becoming operational; an interface that refuses the address-claim frame of the CA (can.CanError from the send backend); contender NAMEs whose numeric order is opposite to the order of their low bytes; preferred addresses incl. the range boundaries 0, 127, 128, 247, 248, 253) on either '
         'data link layer; at instants before start, during the claim delay, during WAIT_VETO, operational, 1 ms after a loss, after the re-claim and '
         'in CANNOT_CLAIM every send entry point is called: send_pgn <= 8 bytes, send_pgn > 8 bytes, send_message, send_request(ordinary PGN), '
         'send_request(address-claim PGN), Dm22 request, Dm11.request_clear_all, Dm14Query.read (50 ms time-out), and a Dm1 send cycle at the end; '
@@ -21,7 +21,7 @@ ASSUMPTIONS = ['"holds" is read through the public state / device_address proper
 MIN_OBS = {'calls_nonoperational': {'quick': 10000, 'thorough': 100000}, 'calls_operational': {'quick': 10000, 'thorough': 100000},
            'frames_attributed': {'quick': 15000, 'thorough': 150000}, 'null_address_requests': {'quick': 1000, 'thorough': 12000}}
 
-HISTORIES = ['bypass', 'imm_ok', 'veto_ok', 'veto_lose', 'lose_after', 'win', 'lose_twice', 'bypass_lose', 'stopped_lose']
+HISTORIES = ['bypass', 'imm_ok', 'veto_ok', 'veto_lose', 'lose_after', 'win', 'lose_twice', 'bypass_lose', 'stopped_lose', 'bypass_started_lose', 'claim_send_fails']
 
 
 def cases(tier, seed):
@@ -49,7 +49,7 @@ def run_case(case):
     A = W.stack('A')
     X = ScriptNode(W.bus, 'X')
     ST = j.ControllerApplication.State
-    pref = rng.randrange(130, 240) if hist in ('veto_ok', 'veto_lose', 'lose_twice') else rng.randrange(2, 120)
+    pref = rng.randrange(130, 240) if hist in ('veto_ok', 'veto_lose', 'lose_twice', 'claim_send_fails') else rng.randrange(2, 120)
     if hist in ('lose_after', 'win', 'bypass') and rng.random() < 0.5:
         pref = rng.randrange(130, 240)
     # boundaries of the veto range (128..247) and of the immediate ranges, where no loss can push the CA out of room
@@ -60,7 +60,17 @@ def run_case(case):
         if rng.random() < 0.5:
             pref = rng.choice([0, 1, 127, 248, 253])
     nv = C.name_value(identity_number=500, function=30, arbitrary_address_capable=case['aac'])
-    ca = W.ca(A, pref, name_value=nv, bypass=(hist in ('bypass', 'bypass_lose')))
+    ca = W.ca(A, pref, name_value=nv, bypass=(hist in ('bypass', 'bypass_lose', 'bypass_started_lose')))
+    if hist == 'claim_send_fails':
+        # the interface refuses the CA's first frame, i.e. its address claim (can.CanError out of the send backend): the claim never reaches the bus
+        failed = []
+
+        def refuse(can_id, data):
+            if ((can_id >> 16) & 0xFF) == C.PF_ADDRESS_CLAIM and not failed:
+                failed.append(can_id)
+                return True
+            return False
+        A.fail_pred = refuse
     # contender NAMEs whose numeric order is opposite to the order of their low (first transmitted) bytes
     LOW = C.name_bytes(C.name_value(identity_number=rng.choice([3, 0xFF, 0x1FFFFF])))
     LOW2 = C.name_bytes(C.name_value(identity_number=rng.choice([4, 0xFE, 0x1FFFFE])))
@@ -97,7 +107,7 @@ def run_case(case):
         t_l = t_claim + 0.6
         sim.at(t_l, X.send, C.make_id(6, 0, C.PF_ADDRESS_CLAIM, 255, pref), HIGH, fd)
         events.append(t_l)
-    elif hist in ('bypass_lose', 'stopped_lose'):
+    elif hist in ('bypass_lose', 'stopped_lose', 'bypass_started_lose'):
         # the CA is operational without a running claim timer (claim bypassed and never started / stopped after it became operational)
         # when a lower NAME claims its address: it loses the address all the same
         t_l = t_claim + 1.0
@@ -231,6 +241,8 @@ def run_case(case):
         st, ad = at_emit.get(f.idx, (None, None))
         sa = f.can_id & 0xFF if f.ext else f.can_id & 0xFF
         if is_claim(f):
+            if sa == 255:
+                viol.add('claim_from_illegal_address', 'address claim sent from SA 255: %s' % f.brief(), **tag)
             if sa != 254:
                 last_claim = sa
             continue
@@ -241,9 +253,13 @@ def run_case(case):
         obs['frames_attributed'] += 1
         if st != ST.NORMAL:
             viol.add('frame_without_address', 'frame %s emitted while the CA was in state %r' % (f.brief(), st), **tag)
+        elif sa > 253:
+            viol.add('sent_from_illegal_address', 'frame %s carries SA %02X (the CA reports address %r): not an address a CA can hold' % (f.brief(), sa, ad), **tag)
         elif sa != ad:
             viol.add('wrong_source_address', 'frame %s carries SA %02X but the CA holds %r' % (f.brief(), sa, ad), **tag)
-        elif hist not in ('bypass', 'bypass_lose') and sa == pref and 128 <= pref <= 247 and sa in first_claim and f.t < first_claim[sa] + 0.249:
+        elif hist not in ('bypass', 'bypass_lose', 'bypass_started_lose') and sa not in first_claim:
+            viol.add('sent_without_claim', 'frame %s carries SA %02X but no address claim of the CA for that address ever reached the bus' % (f.brief(), sa), **tag)
+        elif hist not in ('bypass', 'bypass_lose', 'bypass_started_lose') and sa == pref and 128 <= pref <= 247 and sa in first_claim and f.t < first_claim[sa] + 0.249:
             # the initial claim of an address in 128..247 completes only after the 250 ms veto time (J1939-81)
             viol.add('sent_before_claim_completed', 'frame %s sent %.1f ms after the initial claim for address %d (veto time 250 ms)'
                      % (f.brief(), (f.t - first_claim[sa]) * 1000, sa), **tag)
